@@ -341,7 +341,8 @@ fn gen_legacy_bits(rng: &mut Rng, mode: usize) -> u32 {
         3 => b |= HT,
         _ => {}
     }
-    if mode == 3 && rng.chance(0.4) {
+    // every key count is a separate set of code paths in the mania converter
+    if mode == 3 && rng.chance(0.6) {
         b |= *rng.pick(&KEY_BITS);
     }
     b
@@ -384,7 +385,7 @@ fn gen_acronyms(rng: &mut Rng, mode: usize, lazer: bool) -> String {
         s.push_str("RD");
     }
     if mode == 3 {
-        if rng.chance(0.35) {
+        if rng.chance(0.6) {
             s.push_str(*rng.pick(&["1K", "2K", "3K", "4K", "5K", "6K", "7K", "8K", "9K"]));
         }
         if lazer && rng.chance(0.2) {
